@@ -14,7 +14,10 @@ EPOCH = datetime.datetime(1970, 1, 1)
 def _instants(tz, tier):
     """UTC instants to probe for one zone: every tabulated transition +-{0,1s,30min} (thorough) / those from 1965 on and a
     sample of the older ones (quick), plus fixed ordinary instants."""
-    out = [datetime.datetime(2020, 1, 15, 12, 0, 0), datetime.datetime(2020, 7, 15, 12, 0, 0, 250000), datetime.datetime(1999, 12, 31, 23, 59, 59, 999999)]
+    out = [datetime.datetime(2020, 1, 15, 12, 0, 0), datetime.datetime(2020, 7, 15, 12, 0, 0, 250000), datetime.datetime(1999, 12, 31, 23, 59, 59, 999999),
+           # sub-second parts that binary floating point does not hold exactly (0.000249 * 1e6 < 249, 43.001009 - 43 ...)
+           datetime.datetime(2017, 4, 1, 15, 30, 0, 249), datetime.datetime(2017, 4, 1, 15, 30, 43, 1009), datetime.datetime(2020, 3, 8, 6, 59, 59, 524287),
+           datetime.datetime(2020, 3, 8, 6, 59, 58, 29), datetime.datetime(2021, 6, 1, 0, 0, 7, 123457)]
     trans = [t for t in getattr(tz, '_utc_transition_times', []) if t.year > 1]
     if tier != 'thorough':
         recent = [t for t in trans if t.year >= 2000]
